@@ -312,6 +312,9 @@ def add_cds_feature(
     location = transcript.cds.chunk_relative_location.to_biopython()
     feature = SeqFeature(location, type=GeneIntervalFeatures.CDS.value, strand=strand.value)
     feature.qualifiers = transcript_qualifiers
+    # GenBank has no frame column: the offset of the first complete codon travels in /codon_start (1-based); without it
+    # the parser (and every other reader) assumes 1 and a CDS whose start frame is 1 or 2 is re-read in frame 0
+    feature.qualifiers[KnownQualifiers.CODON_START.value] = [next(transcript.cds._frame_iter()).value + 1]
 
     if update_translations:
         # if the sequence has N's, we cannot translate
